@@ -248,10 +248,16 @@ def ref_encode(layers):
             h = struct.pack("!BBHHHBBHII", (L["v"] << 4) | L["hl"], L["tos"], hl + len(r), L["id"], (L["flags"] << 13) | L["frag"], L["ttl"], L["protocol"], 0, L["srcip"], L["dstip"]) + opts
             return h[:10] + struct.pack("!H", rfc1071(h)) + h[12:] + r
         if k == "ipv6":
-            if L.get("ext"): return None
-            r = rest(40, ("6", bytes.fromhex(L["srcip"]), bytes.fromhex(L["dstip"]), L["nh"]))
-            if r is None or len(r) > 65535: return None
-            return struct.pack("!IHBB", (6 << 28) | (L["tc"] << 20) | L["flow"], len(r), L["nh"], L["hop_limit"]) + bytes.fromhex(L["srcip"]) + bytes.fromhex(L["dstip"]) + r
+            # RFC 8200 4: each extension header names the next one; 4.3-4.6: Hop-by-Hop / Routing / Destination Options carry their length in
+            # 8-octet units not counting the first, the Fragment header is 8 octets; 8.1: the pseudo header names the UPPER-LAYER protocol
+            eb = b""; upper = L["nh"]
+            for eh in L.get("ext", []):
+                body = bytes.fromhex(eh["body"])
+                if eh["t"] != upper or (len(body) + 2) % 8: return None
+                eb += bytes([eh["nh"]]) + (body if eh["t"] == 44 else bytes([(len(body) + 2) // 8 - 1]) + body); upper = eh["nh"]
+            r = rest(40 + len(eb), ("6", bytes.fromhex(L["srcip"]), bytes.fromhex(L["dstip"]), upper))
+            if r is None or len(eb) + len(r) > 65535: return None
+            return struct.pack("!IHBB", (6 << 28) | (L["tc"] << 20) | L["flow"], len(eb) + len(r), L["nh"], L["hop_limit"]) + bytes.fromhex(L["srcip"]) + bytes.fromhex(L["dstip"]) + eb + r
         def pseudo(n, proto):
             if ctx[0] == "4": return ctx[1] + ctx[2] + struct.pack("!BBH", 0, ctx[3], n)
             return ctx[1] + ctx[2] + struct.pack("!IHBB", n, 0, 0, ctx[3])
@@ -867,6 +873,8 @@ class C14(Check):
             return self.run_seq(case, top)
         if case["kind"] == "hist":
             return self.run_hist(case)
+        if case["kind"] == "fault":
+            return self.run_fault(case, top)
         obs = self.run_stack(case["layers"], top)
         obs.pop("_q", None); obs.pop("_obj", None)
         return obs
@@ -1095,6 +1103,157 @@ class C14(Check):
             if o: o.pop("_q", None); o.pop("_obj", None)
         return obs
 
+    # ---- a pack() that FAILS part-way, the repair of the object, and the next pack() (HARDENING 7 applied to serialisation)
+    #   {"kind":"fault","top":cls,"layers":[…],"site":{"i":n,"f":field} | {"i":n,"list":key,"j":m},"new":value | element,
+    #    "how":"none"|"range"|"type"|"bytearray","brk":"attr"|"replace","fix":"field"|"attr"|"replace"|"equal","prepack":b,"via":"top"|"self","times":1|2}
+    # The stack is built (and, with prepack, packed once: every cache now holds the old content); one scalar field of header i, or one
+    # nested object of it (DHCP option, TCP option, LLDP TLV, NDP option, RIP entry, DNS record, IGMP group record, IPv6 extension header)
+    # is made unserialisable: a value of None / out of range / of the wrong type / a bytearray where bytes are split, put there by assignment
+    # to the nested object's attribute or by putting an incomplete object in its place.  pack() is called (through the top header or on
+    # header i itself, once or twice) and normally raises somewhere in the middle of the computed state (lengths, checksums, cached option
+    # blocks of this and of the enclosing headers).  The caller then repairs the object: assigns the field; fills in the attribute of the
+    # nested object; puts a new complete object in its place; or fills in the attribute and re-assigns an EQUAL value to the container (for a
+    # DHCP value given as bytearray: the same value as bytes).  What the next pack() emits must be the frame of a freshly built stack with
+    # the final values: the per-stack property, and the model's answer for that stack alone.
+    NESTED = {"dhcp": (("options", "options"),), "tcp": (("options", "options"),), "lldp": (("tlvs", "tlvs"),), "rip": (("entries", "entries"),),
+              "nd_ns": (("opts", "options"),), "nd_na": (("opts", "options"),), "nd_rs": (("opts", "options"),), "nd_ra": (("opts", "options"),),
+              "dns": (("questions", "questions"), ("answers", "answers"), ("authorities", "authorities"), ("additional", "additional")),
+              "igmp": (("groups", "group_records"),), "ipv6": (("ext", "extension_headers"),)}
+
+    @staticmethod
+    def _nested_attr(k, key, e):
+        """the attribute of the nested object that carries the element's value (None: the element has no value to withhold)"""
+        if k == "dhcp":
+            if e.get("plain"): return "<value>"
+            if "raw" in e: return "data"
+            return {51: "seconds", 58: "seconds", 59: "seconds", 53: "type", 1: "addr", 28: "addr", 50: "addr", 54: "addr", 3: "addrs", 4: "addrs", 6: "addrs", 55: "options"}.get(e["c"], "data")
+        if k == "tcp": return None if e["t"] in (0, 1, 4) else "val"
+        if k == "lldp": return {0: None, 1: "id", 2: "id", 3: "ttl", 7: "caps", 8: "address", 127: "payload"}.get(e["t"], "payload")
+        if k == "rip": return "metric"
+        if k.startswith("nd_"): return {1: "address", 2: "address", 5: "mtu", 3: "valid_lifetime"}.get(e["t"], "raw")
+        if k == "dns": return "qtype" if key == "questions" else "ttl"
+        if k == "igmp": return "address"
+        if k == "ipv6": return "next_header_type"
+        return None
+
+    def fault_sites(self, layers):
+        out = []
+        special = any(L["k"] == "udp" and (L["srcport"] in UDP_SPECIAL or L["dstport"] in UDP_SPECIAL) for L in layers)
+        for i, L in enumerate(layers):
+            k = L["k"]
+            for f, how in self.SETTABLE.get(k, {}).items():
+                if how[0] in ("payload", "tcpopts") or (k == "udp" and special): continue
+                out.append({"i": i, "f": f})
+            for key, _ in self.NESTED.get(k, ()):
+                v = L.get(key)
+                if not isinstance(v, list): continue
+                for j, e in enumerate(v):
+                    if self._nested_attr(k, key, e) is not None: out.append({"i": i, "list": key, "j": j})
+        return out
+
+    @staticmethod
+    def fault_final(case):
+        """the layer list of the repaired object"""
+        st = case["site"]; Ls = [dict(L) for L in case["layers"]]
+        if "f" in st: Ls[st["i"]][st["f"]] = case["new"]
+        else:
+            v = list(Ls[st["i"]][st["list"]]); v[st["j"]] = case["new"]; Ls[st["i"]][st["list"]] = v
+        return C14.fixup(Ls)
+
+    def _mk_elem(self, L, key, e):
+        """the nested object the builders make for element `e` of list `key` of layer L (built through the same mk_* code as whole stacks)"""
+        k = L["k"]
+        if k == "dhcp": return self._dhcp_opt(e)
+        if k == "tcp": return self._tcpopt(e)
+        blank = {kk: [] for kk, _ in self.NESTED[k]}
+        o = getattr(self, "mk_" + k)(dict(L, **dict(blank, **{key: [e]})), "absent")
+        return getattr(o, dict(self.NESTED[k])[key])[-1]
+
+    def run_fault(self, case, top):
+        always = lambda Ls: [dict(L, _always=True) if L["k"] == "gre" else L for L in Ls]
+        L0 = always(case["layers"]); LF = always(self.fault_final(case)); st = case["site"]; i = st["i"]
+        obs = {}
+        try:
+            A = self.build(L0)
+        except Exception as e:
+            return {"exc": type(e).__name__, "stage": "build", "where": self._lib_exc(e)}
+        hs = []; o = A
+        while isinstance(o, self.packet_base): hs.append(o); o = o.next
+        h = hs[i]; k = L0[i]["k"]
+        if case.get("prepack"):
+            obs["P"] = self.run_stack(L0, top, obj=A)
+            obs["P"].pop("_q", None); obs["P"].pop("_obj", None)
+            if "pack" not in obs["P"]: return obs
+        # --- break
+        how = case["how"]
+        def bad(good, bits=None):
+            if how == "none": return None
+            if how == "type": return "x" if not isinstance(good, str) else 5
+            if how == "range": return (1 << (bits or 64)) if isinstance(good, int) and not isinstance(good, bool) else None
+            if how == "bytearray": return bytearray(good) if isinstance(good, (bytes, bytearray)) else None
+            return None
+        if "f" not in st:
+            key = st["list"]; j = st["j"]; cont = getattr(h, dict(self.NESTED[k])[key])
+            e0, e1 = L0[i][key][j], case["new"]
+            ck = e0["c"] if k == "dhcp" else j
+            an = self._nested_attr(k, key, e1)
+            good = self._mk_elem(LF[i], key, e1)                   # the complete object with the final value
+            nested = self._mk_elem(LF[i], key, e1) if case["brk"] == "replace" else cont[ck]
+        try:
+            if "f" in st:
+                spec = self.SETTABLE[k][st["f"]]; attr = (spec[2] if spec[0] == "int" and spec[2] else st["f"])
+                setattr(h, attr, bad(getattr(h, attr), spec[1] if spec[0] == "int" else None))
+            elif an == "<value>": cont[ck] = bad(good)               # a plain value in the DHCP option dictionary
+            else:
+                setattr(nested, an, bad(getattr(good, an), 32))
+                if case["brk"] == "replace": cont[ck] = nested
+        except Exception as e:
+            obs["refused"] = "%s at %s" % (type(e).__name__, self._lib_exc(e))          # (a setter that rejects the value: nothing was broken)
+        # --- the failing pack()
+        raised = []
+        for _ in range(case.get("times", 1)):
+            try:
+                (A if case.get("via") != "self" else h).pack(); raised.append(None)
+            except Exception as e:
+                raised.append(type(e).__name__)
+        obs["raised"] = raised
+        # --- repair
+        try:
+            if "f" in st:
+                self._set(A, L0, {"i": i, "f": st["f"], "v": case["new"]})
+            else:
+                fix = case["fix"]
+                if an == "<value>": cont[ck] = good                                      # (equal to the bytearray it replaces)
+                elif fix == "replace": cont[ck] = good
+                else:
+                    setattr(nested, an, getattr(good, an))
+                    if k == "ipv6" and hasattr(good, "payload_length"): nested.payload_length = good.payload_length
+                    if fix == "equal":
+                        if k == "dhcp": cont[ck] = cont[ck]
+                        else: setattr(h, dict(self.NESTED[k])[key], list(cont))
+        except Exception as e:
+            obs["fix_exc"] = "%s at %s" % (type(e).__name__, self._lib_exc(e)); return obs
+        f = self.run_stack(LF, top, obj=A)
+        if "pack" in f:
+            try:
+                f["again"] = (A.pack().hex() == f["pack"])
+            except Exception as e:
+                f["again"] = "%s at %s" % (type(e).__name__, self._lib_exc(e))
+        f.pop("_q", None); f.pop("_obj", None)
+        obs["F"] = f
+        return obs
+
+    def fault_oracle(self, case, obs):
+        if "exc" in obs: return "constructor raises %s at %s" % (obs["exc"], obs["where"])
+        if "P" in obs:
+            f = self.stack_oracle(case["layers"], obs["P"])
+            if f is not None: return "[pack before the fault] " + f
+        if "fix_exc" in obs: return "repairing the object raises %s" % obs["fix_exc"]
+        f = self.stack_oracle(self.fault_final(case), obs["F"])
+        if f is not None: return "[pack after a failed pack and its repair] " + f
+        if obs["F"].get("again") is not True: return "[pack after a failed pack and its repair] packing once more differs: %s" % (obs["F"].get("again"),)
+        return None
+
     # ------------------------------------------------------------------ IPv6 extension-header chains (Model/IPv6Ext.lean)
     V6FIX = dict(tc=0, flow=0, hop_limit=64)
     def run_v6ext(self, case):
@@ -1124,7 +1283,10 @@ class C14(Check):
                         "body": self._hex(x.raw_body)} for x in q.extension_headers]
         if q.parsed:
             obs["nht"] = q.payload_type
-            obs["payload"] = None if q.next is None else (bytes(q.next).hex() if isinstance(q.next, (bytes, bytearray)) else "object:" + type(q.next).__name__)
+            # (a damaged chain can end, by chance, in protocol 17 / 6 / 58: the payload is then handed to that parser, which keeps the bytes it was given)
+            nx = q.next
+            if isinstance(nx, self.packet_base) and isinstance(getattr(nx, "raw", None), (bytes, bytearray)): nx = nx.raw
+            obs["payload"] = None if nx is None else (bytes(nx).hex() if isinstance(nx, (bytes, bytearray)) else "object:" + type(nx).__name__)
             try:
                 obs["repack"] = q.pack().hex()
             except Exception as ex:
@@ -1267,6 +1429,8 @@ class C14(Check):
             return {"op": "mutparse", "top": case["top"], "mut": case["mut"], "cfg": self.variant, "layers": [self._mlayer(L) for L in case["layers"]]}
         if case["kind"] == "hist":
             return {"op": "seq", "steps": [self._stack_req(case, ex["layers"], top=ex["top"]) for ex in self.hist_sim(case) if ex is not None and "layers" in ex]}
+        if case["kind"] == "fault":
+            return {"op": "seq", "steps": ([self._stack_req(case, case["layers"])] if case.get("prepack") else []) + [self._stack_req(case, self.fault_final(case))]}
         if case["kind"] == "seq":
             bu = (lambda o: o.get("built") if obs is not None and o is not None else None)
             steps = [self._stack_req(case, case["layers"], bu(obs and obs.get("A1")))]
@@ -1308,6 +1472,10 @@ class C14(Check):
             return {"v": resp["code"]}
         if case["kind"] == "hist":
             return {"steps": [self._stack_view(x) for x in resp["steps"]]}
+        if case["kind"] == "fault":
+            out = {"F": self._stack_view(resp["steps"][-1])}
+            if case.get("prepack"): out["P"] = self._stack_view(resp["steps"][0])
+            return out
         if case["kind"] == "seq":
             st = resp["steps"]
             out = {"A1": self._stack_view(st[0], ("pack", "built")), "A2": self._stack_view(st[-1])}
@@ -1330,6 +1498,9 @@ class C14(Check):
             # the model answers every pack of the history; the implementation's list stops where a step could not be carried out
             if "exc" in obs: return {"exc": obs["exc"]}
             return {"steps": [sv(o) for o in obs["steps"] if o is not None and "abort" not in o]}
+        if case["kind"] == "fault":
+            if "exc" in obs: return {"exc": obs["exc"]}
+            return {k: sv(obs[k]) for k in ("P", "F") if k in obs}
         if case["kind"] == "seq":
             if "A1" not in obs: return {"A1": {"exc": obs["exc"]}}
             out = {"A1": obs["A1"]}
@@ -1364,6 +1535,8 @@ class C14(Check):
             return self.seq_oracle(case, obs)
         if case["kind"] == "hist":
             return self.hist_oracle(case, obs)
+        if case["kind"] == "fault":
+            return self.fault_oracle(case, obs)
         return self.stack_oracle(case["layers"], obs)
 
     def seq_oracle(self, case, obs):
@@ -1456,6 +1629,17 @@ class C14(Check):
             ff = self.stack_oracle(ex["layers"], fresh)
             if ff is not None and self.stack_key(ex["layers"], fresh, ff) == inner: return inner          # the same stack fails when built afresh
             return ("hist-shared:" if ex["stale"] else "hist:") + inner
+        if case["kind"] == "fault":
+            m = re.match(r"\[(pack before the fault|pack after a failed pack and its repair)\] (.*)", failure, re.S)
+            if not m: return "fault:" + re.sub(r" at .*", "", failure)[:60]
+            layers, o = (case["layers"], obs["P"]) if m.group(1) == "pack before the fault" else (self.fault_final(case), obs["F"])
+            if m.group(2).startswith("packing once more"): return "fault:pack-again:" + "/".join(self._sig(L) for L in layers if L["k"] not in TERMINAL)
+            inner = self.stack_key(layers, o, m.group(2))
+            fresh = self.run_stack(layers, {"ethernet": self.m["ethernet"].ethernet, "ipv4": self.m["ipv4"].ipv4}[case["top"]])
+            ff = self.stack_oracle(layers, fresh)
+            if (ff is not None and self.stack_key(layers, fresh, ff) == inner) or m.group(1) == "pack before the fault": return inner          # not a matter of history
+            st = case["site"]
+            return "fault:%s.%s:%s:%s" % (case["layers"][st["i"]]["k"], st.get("f") or st["list"], case["fix"], inner)
         if case["kind"] == "seq":
             m = re.match(r"\[(second object|pack after a field change|second pack)\] (.*)", failure, re.S)
             if m:
@@ -1479,6 +1663,8 @@ class C14(Check):
         if failure.startswith("wire "):
             k = failure.split()[1].rstrip(":")
             what = re.sub(r"\b[0-9a-f]{4}\b|\d+", "N", failure.split(": ", 1)[1])[:48]
+            if k in ("udp", "tcp", "icmpv6") and "checksum" in what and any(L["k"] == "ipv6" and L.get("ext") for L in layers):
+                return "wire:ipv6[ext]/%s:%s" % (k, what)          # a transport header behind IPv6 extension headers
             return "wire:%s:%s" % (sigs.get(k, k), what)
         if failure.startswith("reference "):
             k = failure.split()[1].rstrip(":")
@@ -1505,6 +1691,7 @@ class C14(Check):
         if case["kind"] == "cksum": return len(case["data"]) >= 4
         if case["kind"] == "mutparse": return False
         if case["kind"] == "hist": return True
+        if case["kind"] == "fault": return any(x is not None for x in obs.get("raised", []))
         return sum(1 for L in case["layers"] if L["k"] not in TERMINAL) >= 2
 
     def shrink_candidates(self, case):
@@ -1520,6 +1707,13 @@ class C14(Check):
         if case["kind"] == "hist":
             for j in range(len(case["ops"])):
                 yield dict(case, ops=case["ops"][:j] + case["ops"][j + 1:])
+            return
+        if case["kind"] == "fault":
+            if case.get("prepack"): yield dict(case, prepack=False)
+            if case.get("times", 1) > 1: yield dict(case, times=1)
+            if case.get("via") == "self": yield dict(case, via="top")
+            t = case["layers"][-1]
+            if t["k"] == "bytes" and len(t["data"]) > 8: yield dict(case, layers=self.fixup(case["layers"][:-1] + [dict(t, data=t["data"][:8])]))
             return
         if case["kind"] == "seq":
             if case.get("other") is not None: yield {k: v for k, v in case.items() if k not in ("other", "bfirst")}
@@ -1735,9 +1929,15 @@ class C14(Check):
                     return self._stack([E("ipv6"), v6, {"k": "udp", "srcport": self.g_port(rng), "dstport": self.g_port(rng), "len": 8, "csum": 0}, self.bytes_layer(rng, hi=1400)])
                 if w == "tcp":
                     v6["nh"] = 6; return self._stack([E("ipv6"), v6, self.g_tcp(rng), self.bytes_layer(rng, hi=1300)])
-                t = rng.choice([0, 43, 60, 44])
-                v6["nh"] = t
-                v6["ext"] = [{"t": t, "nh": 99, "body": self.rbytes(rng, 7 if t == 44 else rng.choice([6, 14])).hex()}]
+                # one to three extension headers in front of a raw payload or of a transport header (whose pseudo header names the
+                # upper-layer protocol, RFC 8200 8.1)
+                ts = [rng.choice([0, 43, 60, 44]) for _ in range(rng.choice([1, 1, 2, 3]))]
+                up = rng.choice([99, 17, 6, 58])
+                v6["nh"] = ts[0]
+                v6["ext"] = [{"t": t, "nh": (ts[n + 1] if n + 1 < len(ts) else up), "body": self.rbytes(rng, 7 if t == 44 else rng.choice([6, 14])).hex()} for n, t in enumerate(ts)]
+                if up == 17: return self._stack([E("ipv6"), v6, {"k": "udp", "srcport": self.g_port(rng), "dstport": self.g_port(rng), "len": 8, "csum": 0}, self.bytes_layer(rng, hi=300)])
+                if up == 6: return self._stack([E("ipv6"), v6, self.g_tcp(rng), self.bytes_layer(rng, hi=300)])
+                if up == 58: return self._stack([E("ipv6"), v6, {"k": "icmpv6", "type": rng.choice([128, 129]), "code": 0}, {"k": "echo6", "id": self.val(rng, 16), "seq": self.val(rng, 16)}, self.bytes_layer(rng, hi=300)])
                 return self._stack([E("ipv6"), v6, self.bytes_layer(rng, hi=100)])
             v6["nh"] = 58
             w = rng.choice(["echo", "echo", "unk", "ns", "na", "rs", "ra", "toobig", "timeex", "unreach"])
@@ -1998,6 +2198,139 @@ class C14(Check):
             case["layers"] = [dict(L, _noid=True) if L["k"] == "ipv4" else L for L in LA]
         return case
 
+    # ---- failed pack, repair, pack again
+    def _vary_elem(self, rng, k, key, e, long=False):
+        """another value for the nested element `e` (same type, same length class); `long`: a DHCP value of more than 255 bytes"""
+        e = dict(e); rb = lambda hx, n=None: self.rbytes(rng, len(hx) // 2 if n is None else n).hex()
+        if k == "dhcp":
+            if "raw" in e: e["raw"] = rb(e["raw"], rng.choice([256, 300, 511]) if long else None)
+            elif e["c"] == 53: e["v"] = rng.randint(1, 8)
+            elif e["c"] in (1, 28, 50, 54, 51, 58, 59): e["v"] = self.val(rng, 32)
+            elif e["c"] in (3, 4, 6): e["v"] = [self.val(rng, 32) for _ in e["v"]]
+            elif e["c"] == 55: e["v"] = [rng.randint(1, 254) for _ in e["v"]]
+            else: e["v"] = rb(e["v"], rng.choice([256, 300, 511]) if long else None)
+        elif k == "tcp":
+            t = e["t"]
+            if t == 2: e["v"] = self.val(rng, 16)
+            elif t == 3: e["v"] = self.val(rng, 8)
+            elif t == 5: e["v"] = [[self.val(rng, 32), self.val(rng, 32)] for _ in e["v"]]
+            elif t == 8: e["v"] = [self.val(rng, 32), self.val(rng, 32)]
+            else: e["v"] = rb(e["v"])
+        elif k == "lldp":
+            t = e["t"]
+            if t in (1, 2): e["id"] = rb(e["id"])
+            elif t == 3: e["ttl"] = self.val(rng, 16)
+            elif t == 7: e["caps"] = self.val(rng, 16)
+            elif t == 8: e["addr"] = rb(e["addr"])
+            else: e["payload"] = rb(e["payload"])
+        elif k == "rip": e["metric"] = rng.randint(0, 16)
+        elif k.startswith("nd_"):
+            t = e["t"]
+            if t in (1, 2): e["addr"] = rb(e["addr"])
+            elif t == 5: e["mtu"] = self.val(rng, 32)
+            elif t == 3: e["valid"] = self.val(rng, 32)
+            else: e["raw"] = rb(e["raw"])
+        elif k == "dns":
+            if key == "questions": e["qtype"] = rng.choice([1, 28, 255, 16])
+            else: e["ttl"] = rng.randint(0, 0x7fffffff)
+        elif k == "igmp": e["addr"] = self.val(rng, 32)
+        return e
+
+    def mk_fault(self, rng, layers, site, **kw):
+        """a fault case at `site` of `layers`; parameters not given are drawn"""
+        L = layers[site["i"]]; k = L["k"]
+        pick = lambda name, choices: kw[name] if name in kw else rng.choice(choices)
+        case = {"kind": "fault", "top": "ethernet", "layers": layers, "site": site}
+        if "f" in site:
+            spec = self.SETTABLE[k][site["f"]]
+            for _ in range(8):
+                v = (self.g_port(rng) if k == "udp" else self.val(rng, spec[1])) if spec[0] == "int" else self.rbytes(rng, 6).hex() if spec[0] == "mac" else self.val(rng, 32) if spec[0] == "ip4" \
+                    else self.rbytes(rng, 16).hex()
+                if v != L[site["f"]]: break
+            case.update(new=v, how=pick("how", ["none", "none", "range", "type"] if spec[0] == "int" else ["none", "type"]), brk="attr", fix="field")
+        else:
+            e = L[site["list"]][site["j"]]
+            byt = k == "dhcp" and self._nested_attr(k, site["list"], e) in ("data", "<value>")
+            how = pick("how", ["none", "none", "type", "range"] + (["bytearray"] * 4 if byt else []))
+            if how == "bytearray" and not byt: how = "none"
+            for _ in range(8):
+                new = self._vary_elem(rng, k, site["list"], e, long=(how == "bytearray"))
+                if new != e or k == "ipv6": break
+            case.update(new=new, how=how, brk=pick("brk", ["attr", "replace"]), fix=pick("fix", ["attr", "attr", "replace", "equal"]))
+        case.update(prepack=pick("prepack", [False, True]), via=pick("via", ["top", "top", "self"]), times=pick("times", [1, 1, 1, 2]))
+        if k == "dhcp" and "list" in site:
+            # the DHCP option dictionary notices assignments only (util.DirtyDict is shallow by its own description): once the message has been
+            # packed, a change that nothing announces is legitimately not seen.  So after a successful pack the fault arrives by assignment, and
+            # only in the ways that make packOptions raise (a pack that succeeds marks the block clean again).
+            if case["prepack"]:
+                case["brk"] = "replace"
+                if case["how"] == "range": case["how"] = "none"
+        return case
+
+    def g_fault(self, rng):
+        for _ in range(30):
+            base = self.g_modelled(rng) if rng.random() < 0.4 else self.g_other(rng)
+            Ls = base["layers"]; t = Ls[-1]
+            if t["k"] == "bytes" and len(t["data"]) > 256: Ls = self.fixup(Ls[:-1] + [dict(t, data=t["data"][:2 * rng.randint(0, 128)])])
+            if any(L.get("_noid") for L in Ls): continue
+            sites = self.fault_sites(Ls)
+            nested = [x for x in sites if "list" in x]
+            if not sites: continue
+            site = rng.choice(nested) if nested and rng.random() < 0.7 else rng.choice(sites)
+            return self.mk_fault(rng, Ls, site)
+        return self.g_seq(rng)
+
+    def fault_corpus(self):
+        """every fault site of a fixed set of frames x way of breaking x way of repairing x packed before or not x where pack() is called"""
+        import random
+        rng = random.Random(141); cases = []
+        E, E6, I, I6, U, T = self.FE, dict(self.FE, type=0x86dd), self.FI, self.FI6, self.FU, self.FT
+        B = lambda b: {"k": "bytes", "data": bytes(b).hex()}
+        dh = lambda opts: {"k": "dhcp", "op": 2, "htype": 1, "hlen": 6, "hops": 0, "xid": 0x3903f326, "secs": 0, "flags": 0, "ciaddr": 0, "yiaddr": 0xc0a8000a, "siaddr": 0xc0a80001, "giaddr": 0,
+                           "chaddr": "000b8201fc42" + "00" * 10, "sname": "", "file": "", "options": opts}
+        long = bytes(range(256)).hex() + "76656e646f72"
+        rr = lambda name, t, data: {"name": name, "qtype": t, "qclass": 1, "ttl": 300, "data": data}
+        frames = self.l4_frames(B(b"abc")) + [
+            [E, I(17), dict(U, srcport=67, dstport=68), dh([{"c": 53, "v": 5}, {"c": 51, "v": 86400}, {"c": 54, "v": 0xc0a80001}]), {"k": "none"}],
+            [E, I(17), dict(U, srcport=67, dstport=68), dh([{"c": 53, "v": 2}, {"c": 43, "v": long, "plain": True}]), {"k": "none"}],
+            [E, I(17), dict(U, srcport=67, dstport=68), dh([{"c": 1, "v": 0xffffff00}, {"c": 6, "v": [0x08080808, 0x08080404]}, {"c": 55, "v": [1, 3, 6]}, {"c": 12, "v": "686f7374"},
+                                                            {"c": 43, "v": long}, {"c": 60, "raw": "4d53"}]), {"k": "none"}],
+            [E, I(6, hl=6, raw_options="01010100"), T([{"t": 2, "v": 1460}, {"t": 1}, {"t": 3, "v": 7}, {"t": 8, "v": [1, 2]}, {"t": 5, "v": [[1, 2]]}, {"t": 77, "v": "7879"}]), B(b"ab")],
+            [E6, dict(I6, nh=6), T([{"t": 2, "v": 1440}]), B(b"abc")],
+            [dict(E, type=0x88cc), {"k": "lldp", "tlvs": [{"t": 1, "subtype": 4, "id": "000102030405"}, {"t": 2, "subtype": 2, "id": "31"}, {"t": 3, "ttl": 120}, {"t": 5, "payload": "7377"},
+                                                         {"t": 7, "caps": 0x14, "en": 4}, {"t": 8, "ast": 1, "addr": "0a000001", "ins": 2, "ifn": 3, "oid": "2b06"},
+                                                         {"t": 127, "oui": "0026e1", "subtype": 0, "payload": "6470"}, {"t": 0}]}, {"k": "none"}],
+            [E6, I6, {"k": "icmpv6", "type": 134, "code": 0}, {"k": "nd_ra", "hop_limit": 64, "managed": True, "other": False, "lifetime": 1800, "reachable": 0, "retrans": 1000,
+                                                               "opts": [{"t": 1, "addr": "001122334455"}, {"t": 5, "mtu": 1500},
+                                                                        {"t": 3, "plen": 64, "onlink": True, "auto": True, "valid": 86400, "pref": 14400, "prefix": "20010db8" + "00" * 12},
+                                                                        {"t": 14, "raw": "010203040506"}]}, {"k": "none"}],
+            [E6, I6, {"k": "icmpv6", "type": 135, "code": 0}, {"k": "nd_ns", "target": "fe80" + "00" * 13 + "05", "opts": [{"t": 1, "addr": "001122334455"}]}, {"k": "none"}],
+            [E, I(17), dict(U, srcport=520, dstport=520), {"k": "rip", "command": 2, "version": 2, "entries": [{"af": 2, "tag": 0, "ip": 0x0a000000, "mask": 0xff000000, "nh": 0, "metric": 3},
+                                                                                                          {"af": 2, "tag": 7, "ip": 0x0a010000, "mask": 0xffff0000, "nh": 1, "metric": 16}]}, {"k": "none"}],
+            [E, I(17), dict(U, srcport=53, dstport=40000), {"k": "dns", "id": 7, "qr": True, "opcode": 0, "aa": False, "tc": False, "rd": True, "ra": True, "z": False, "ad": False, "cd": False, "rcode": 0,
+                                                            "questions": [{"name": "www.example.org", "qtype": 1, "qclass": 1}], "answers": [rr("www.example.org", 5, "example.org"), rr("example.org", 1, 0x0a000001)],
+                                                            "authorities": [rr("example.org", 2, "ns.example.org")], "additional": [rr("ns.example.org", 16, "616263")]}, {"k": "none"}],
+            [E, I(2), {"k": "igmp", "vt": 0x22, "groups": [{"type": 1, "addr": 0xe0000116, "srcs": [0x0a000001], "aux": ""}, {"type": 4, "addr": 0xe0000109, "srcs": [], "aux": ""}], "extra": ""}, {"k": "none"}],
+            [E6, dict(I6, nh=0, ext=[{"t": 0, "nh": 60, "body": "010400000000"}, {"t": 60, "nh": 17, "body": "01" * 14}]), U, B(b"abcde")],
+            [dict(E, type=0x8100), {"k": "vlan", "pcp": 5, "cfi": 0, "id": 0xabc, "eth_type": 0x0800}, I(1), {"k": "icmp", "type": 3, "code": 1, "csum": 0}, {"k": "unreach", "unused": 0, "next_mtu": 1400},
+             I(17), U, B(b"12345678")],
+            [E, I(17), dict(U, dstport=4789), {"k": "vxlan", "vni": 0xabcdef}, dict(E, type=0x8847), {"k": "mpls", "label": 5, "tc": 1, "s": 1, "ttl": 9}, B(b"abcd")]]
+        for fr in frames:
+            fr = self.fixup(fr)
+            for site in self.fault_sites(fr):
+                if "f" in site:
+                    for how in ("none", "range"):
+                        for pre in (False, True):
+                            cases.append(self.mk_fault(rng, fr, site, how=how, prepack=pre, via=("top" if pre else "self"), times=1))
+                    continue
+                byt = fr[site["i"]]["k"] == "dhcp" and self._nested_attr("dhcp", site["list"], fr[site["i"]][site["list"]][site["j"]]) in ("data", "<value>")
+                for how in (("none", "bytearray") if byt else ("none",)):
+                    for brk in ("attr", "replace"):
+                        for fix in ("attr", "replace", "equal"):
+                            for pre in (False, True):
+                                cases.append(self.mk_fault(rng, fr, site, how=how, brk=brk, fix=fix, prepack=pre, via=rng.choice(["top", "self"]), times=rng.choice([1, 1, 2])))
+        return cases
+
     # ---- fixed frames the corpus families below are built from
     FE = {"k": "ethernet", "dst": "66778899aabb", "src": "001122334455", "type": 0x0800}
     FU = {"k": "udp", "srcport": 1000, "dstport": 2000, "len": 8, "csum": 0}
@@ -2237,6 +2570,15 @@ class C14(Check):
         vmsg = bytes([8, 0, 0, 0, 0xab, 0xcd, 0xef, 0]) + bytes.fromhex("66778899aabb0011223344559999") + b"ab"
         for k in range(len(vmsg) + 1): cases.append(MP([E, I(17), dict(U, dstport=4789), B(vmsg[:k])]))
         for v in range(256): cases.append(MP([E, I(17), dict(U, dstport=4789), B(bytes([v]) + vmsg[1:])]))
+        # --- every extension header type (and every ordered pair) in front of every checksummed transport: the pseudo header names the
+        #     upper-layer protocol (RFC 8200 8.1), not the type of the first extension header
+        XH = lambda t, nh: {"t": t, "nh": nh, "body": ("%02x" % t) * (7 if t == 44 else 6)}
+        for up, l4 in ((17, [U]), (6, [T()]), (6, [T([{"t": 2, "v": 1440}])]), (58, [{"k": "icmpv6", "type": 128, "code": 0}, {"k": "echo6", "id": 7, "seq": 9}])):
+            for pl in (b"", b"a", b"abcd"):
+                for t1 in (0, 43, 44, 60):
+                    cases.append(S([E6, dict(I6, nh=t1, ext=[XH(t1, up)])] + l4 + [B(pl)]))
+                    for t2 in (0, 43, 44, 60):
+                        if pl == b"a": cases.append(S([E6, dict(I6, nh=t1, ext=[XH(t1, t2), XH(t2, up)])] + l4 + [B(pl)]))
         # --- 1, 2, 4: call histories on the same objects
         V = {"k": "vlan", "pcp": 5, "cfi": 0, "id": 0xabc, "eth_type": 0x0800}
         nd = {"k": "nd_na", "target": "fe80" + "00" * 13 + "05", "opts": [{"t": 2, "addr": "001122334455"}, {"t": 14, "raw": "010203040506"}], "router": True, "solicited": False, "override": True}
@@ -2462,6 +2804,7 @@ class C14(Check):
             for fill in (b"\xff", b"\x80", b"\x01"):
                 cases.append({"kind": "cksum", "data": (fill * n).hex(), "start": 0, "skip": None})
         cases += self.v6ext_corpus()
+        cases += self.fault_corpus()
         return cases
 
     def generate(self, rng, tier):
@@ -2471,7 +2814,8 @@ class C14(Check):
             if r < 0.10: yield self.g_cksum(rng)
             elif r < 0.50: yield self.g_modelled(rng)
             elif r < 0.63: yield self.g_mut(rng)
-            elif r < 0.72: yield self.g_seq(rng)
+            elif r < 0.69: yield self.g_seq(rng)
+            elif r < 0.72: yield self.g_fault(rng)
             elif r < 0.75: yield self.g_hist(rng)
             elif r < 0.753: yield self.g_big(rng)
             elif r < 0.783: yield self.g_cktarget(rng)
